@@ -76,6 +76,92 @@ theorem setLogHeader_state (f : Bool) (lb : LB) :
 
 theorem pickle_eq (lb : LB) : pickle lb = lb := by cases lb; rfl
 
+/-! ### streaming a chapter on its own -/
+
+theorem getChapter_mapChapter (f : LB → LB) (n c : Name) (chs : List (Name × LB)) :
+    getChapter c (mapChapter f n chs) = if c = n then (getChapter n chs).map f else getChapter c chs := by
+  induction chs with
+  | nil => simp [mapChapter, getChapter]
+  | cons q qs ih =>
+    obtain ⟨k, ch⟩ := q
+    simp only [getChapter] at ih ⊢
+    simp only [mapChapter]
+    by_cases hk : k = n
+    · subst hk
+      by_cases h : c = k
+      · subst h; simp [List.lookup]
+      · have hb : (c == k) = false := by simpa using h
+        simp [List.lookup, h, hb]
+    · by_cases h : c = n
+      · subst h
+        have hb : (c == k) = false := by simpa using Ne.symm hk
+        simp [hk, List.lookup, hb, ih]
+      · by_cases h2 : c = k
+        · subst h2; simp [hk, List.lookup, h]
+        · have hb : (c == k) = false := by simpa using h2
+          simp [hk, List.lookup, hb, ih, h]
+
+theorem keys_mapChapter (f : LB → LB) (n : Name) (chs : List (Name × LB)) :
+    (mapChapter f n chs).map (·.1) = chs.map (·.1) := by
+  induction chs with
+  | nil => rfl
+  | cons q qs ih =>
+    obtain ⟨k, ch⟩ := q
+    simp only [mapChapter]; split <;> simp [ih]
+
+theorem mem_mapChapter (f : LB → LB) (n : Name) (chs : List (Name × LB)) (q : Name × LB)
+    (hq : q ∈ mapChapter f n chs) : ∃ r ∈ chs, q.1 = r.1 ∧ (q.2 = r.2 ∨ q.2 = f r.2) := by
+  induction chs with
+  | nil => simp [mapChapter] at hq
+  | cons r rs ih =>
+    obtain ⟨k, ch⟩ := r
+    simp only [mapChapter] at hq
+    split at hq
+    · rcases List.mem_cons.1 hq with rfl | hq
+      · exact ⟨(k, ch), by simp, rfl, Or.inr rfl⟩
+      · exact ⟨q, by simp [hq], rfl, Or.inl rfl⟩
+    · rcases List.mem_cons.1 hq with rfl | hq
+      · exact ⟨(k, ch), by simp, rfl, Or.inl rfl⟩
+      · obtain ⟨r, hr, h1, h2⟩ := ih hq
+        exact ⟨r, by simp [hr], h1, h2⟩
+
+/-- the stream of a (sub-)chapter touches neither rows nor chapter structure anywhere -/
+theorem modifyAt_stream_top (path : List Name) (lb : LB) :
+    (modifyAt (fun l => (stream l).2) path lb).rows = lb.rows ∧
+    (modifyAt (fun l => (stream l).2) path lb).chapters.map (·.1) = lb.chapters.map (·.1) ∧
+    (lb.buffindex ≤ lb.rows.length →
+      (modifyAt (fun l => (stream l).2) path lb).buffindex ≤ lb.rows.length) := by
+  cases path with
+  | nil =>
+    obtain ⟨h1, h2, h3, _⟩ := stream_state lb
+    simp only [modifyAt]
+    exact ⟨h1, by rw [h2], fun _ => by rw [h3]; exact Nat.le_refl _⟩
+  | cons n rest => cases lb; simp [modifyAt, keys_mapChapter]
+
+theorem modifyAt_cons_state (n : Name) (rest : List Name) (lb : LB) :
+    (modifyAt (fun l => (stream l).2) (n :: rest) lb).rows = lb.rows ∧
+    (modifyAt (fun l => (stream l).2) (n :: rest) lb).buffindex = lb.buffindex ∧
+    (modifyAt (fun l => (stream l).2) (n :: rest) lb).logHeader = lb.logHeader ∧
+    (modifyAt (fun l => (stream l).2) (n :: rest) lb).headerStreamed = lb.headerStreamed ∧
+    (modifyAt (fun l => (stream l).2) (n :: rest) lb).chapters =
+      mapChapter (modifyAt (fun l => (stream l).2) rest) n lb.chapters := by
+  cases lb; simp [modifyAt]
+
+/-- on a chapter without sub-chapters -/
+theorem modifyAt_flat (path : List Name) (ch : LB) (hc : ch.chapters = [])
+    (hb : ch.buffindex ≤ ch.rows.length) :
+    (modifyAt (fun l => (stream l).2) path ch).rows = ch.rows ∧
+    (modifyAt (fun l => (stream l).2) path ch).chapters = [] ∧
+    (modifyAt (fun l => (stream l).2) path ch).buffindex ≤ ch.rows.length := by
+  cases path with
+  | nil =>
+    obtain ⟨h1, h2, h3, _⟩ := stream_state ch
+    simp only [modifyAt]
+    exact ⟨h1, by rw [h2, hc], by rw [h3]; exact Nat.le_refl _⟩
+  | cons n rest =>
+    obtain ⟨h1, h2, _, _, h5⟩ := modifyAt_cons_state n rest ch
+    exact ⟨h1, by rw [h5, hc]; rfl, by rw [h2]; exact hb⟩
+
 /-- one step of a history keeps the logbook the image of the surviving records -/
 theorem step_rep {C : List Name} {lb : LB} {es : List Entry} (h : Rep C lb es) (o : Op)
     (ho : OpOk C es o) : Rep C (step lb o).1 (specStep es o) := by
@@ -87,6 +173,36 @@ theorem step_rep {C : List Name} {lb : LB} {es : List Entry} (h : Rep C lb es) (
     obtain ⟨h1, h2, h3, _⟩ := stream_state lb
     exact h.congr h1 h2 (by show (Logbook.stream lb).2.buffindex ≤ (Logbook.stream lb).2.rows.length; rw [h3, h1]; exact Nat.le_refl _)
   | str => exact h
+  | streamAt c rest =>
+    obtain ⟨h1, h2, _, _, h5⟩ := modifyAt_cons_state c rest lb
+    have hstep : (step lb (Op.streamAt c rest)).1 = modifyAt (fun l => (stream l).2) (c :: rest) lb := rfl
+    simp only [specStep]
+    rw [hstep]
+    refine ⟨by rw [h1]; exact h.rows, ?_, ?_, ?_, by rw [h2, h1]; exact h.buff, ?_⟩
+    · intro k hk
+      have := h.chapters k hk
+      simp only [chRows, h5, getChapter_mapChapter] at this ⊢
+      by_cases hkc : k = c
+      · subst hkc
+        simp only [if_true]
+        cases hg : getChapter k lb.chapters with
+        | none => simpa [hg] using this
+        | some ch =>
+          have hm : (k, ch) ∈ lb.chapters := List.mem_of_lookup_eq_some' _ _ _ hg
+          obtain ⟨f1, f2⟩ := h.flat (k, ch) hm
+          simp only [hg, Option.map_some, Option.getD_some] at this ⊢
+          rw [(modifyAt_flat rest ch f1 f2).1]; exact this
+      · simpa [hkc] using this
+    · intro k hk; rw [h5, keys_mapChapter] at hk; exact h.keys k hk
+    · rw [h5, keys_mapChapter]; exact h.nodup
+    · intro q hq
+      rw [h5] at hq
+      obtain ⟨r, hr, _, h2'⟩ := mem_mapChapter _ _ _ _ hq
+      obtain ⟨f1, f2⟩ := h.flat r hr
+      rcases h2' with e | e
+      · rw [e]; exact ⟨f1, f2⟩
+      · obtain ⟨g1, g2, g3⟩ := modifyAt_flat rest r.2 f1 f2
+        rw [e]; exact ⟨g2, by rw [g1]; exact g3⟩
   | pop i =>
     simp only [step, specStep]
     cases hp : pos? es.length i with
@@ -222,6 +338,11 @@ theorem step_other {C : List Name} {lb : LB} {es : List Entry} {D : List Row} (h
   | stream => exact absurd rfl h2
   | select path names => exact ⟨h, fun r hr => hr⟩
   | str => exact ⟨h, fun r hr => hr⟩
+  | streamAt c rest =>
+    obtain ⟨h1', h2', _⟩ := modifyAt_cons_state c rest lb
+    have hstep : (step lb (Op.streamAt c rest)).1 = modifyAt (fun l => (stream l).2) (c :: rest) lb := rfl
+    rw [hstep]
+    exact ⟨h.congr h1' h2', fun r hr => by rw [h1'] at hr; exact hr⟩
   | pop i => exact h.pop hrep.deep i
   | delIndex i => exact h.delIndex hrep.deep i
   | delSlice idx =>
